@@ -175,10 +175,24 @@ class GQueue(BQ.Queue):
 
     def __init__(self):
         super(GQueue, self).__init__()
-        self._putsocket = GateSock(self._putsocket)
-        self._getsocket = GateSock(self._getsocket)
+        # the two ends of the wake-up pair are found by TYPE, not by name (a rewrite may rename the private attributes)
+        self._gated = []
+        for name, val in list(vars(self).items()):
+            if isinstance(val, socket.socket):
+                g = GateSock(val)
+                setattr(self, name, g)
+                self._gated.append(g)
         self.putlog = []
         self.putcur = []
+        self.taken = 0          # bytes of the items taken out of this queue (queue.Queue's own _get hook)
+
+    def _get(self):
+        item = super(GQueue, self)._get()
+        try:
+            self.taken += len(item)
+        except Exception:
+            pass
+        return item
 
     def _put(self, item):       # queue.Queue's own hook, called under its mutex: the true queue order
         r = self.eng.reactor if self.eng is not None else None
@@ -191,7 +205,7 @@ class GQueue(BQ.Queue):
         return bool(real_select.select([self], [], [], 0)[0])
 
     def dispose(self):
-        for s in (self._putsocket, self._getsocket):
+        for s in self._gated:
             try:
                 s.close()
             except Exception:
@@ -453,7 +467,9 @@ class Impl(object):
         nenq = len(ob.putlog) if self.gen else 0
         wire = bytes(self.wire.get(self.gen, b''))
         return 'buf=%d q=%d rd=%d ready=%d live=%d ubuf=%d rq=%d subs=[%s] enq=%d:%d wire=%d:%d' % (
-            len(getattr(r, '_buffer', b'')) if self.gen else 0, ob.qsize(), 1 if ob.readable() else 0,
+            # the reactor's pending output, independent of how it is stored: what it took out of the current outbox
+            # minus what the current socket accepted
+            max(0, getattr(ob, 'taken', 0) - len(wire)) if self.gen else 0, ob.qsize(), 1 if ob.readable() else 0,
             1 if r.when_connected.raw() else 0, 1 if self.live() else 0,
             ubuf, self.session.read_queue.qsize(), ','.join(hexf(c) for c in subs),
             nenq, fnv1a(enq), len(wire), fnv1a(wire))
@@ -818,7 +834,7 @@ def backlog_case(res, n_items):
     elif out != list(range(len(out))) or (done.is_set() and len(out) != n_items):
         res.violation('C20', 'queue-fifo', 'pollable Queue after a backlog of %d puts handed out %d items, first %r' % (n_items, len(out), out[:8]), script)
         res.violation('C12', 'message-lost', 'blocking thread session read_queue: backlog of %d messages, %d handed out' % (n_items, len(out)), script)
-    for sk in (q._putsocket, q._getsocket):
+    for sk in [v for v in vars(q).values() if isinstance(v, socket.socket)]:
         try:
             sk.close()
         except Exception:
